@@ -234,6 +234,23 @@ def compile_expression_pass(ctx, res, jinja2, trees, srcs, rng):
                 name = type(e).__name__
                 got = ("err", X.ERRMAP.get(name, "other:" + name))
             n += 1
+            # the default `undefined_to_none=True`: an undefined result becomes None, every other value is itself
+            try:
+                val2 = env.compile_expression(src)(**data)
+                got2 = ("ok", X.canon(X.val_sx(jinja2, val2)))
+            except ValueError:
+                got2 = None
+            except Exception as e:  # noqa
+                name = type(e).__name__
+                got2 = ("err", X.ERRMAP.get(name, "other:" + name))
+            if got2 is not None and got == want:
+                want2 = ("ok", X.canon(X.val_sx(jinja2, None))) if (want[0] == "ok" and isinstance(want[1], list) and want[1]
+                                                                    and str(want[1][0]) == "u") else want
+                if got2 != want2:
+                    res.violate(f"C02:compile_expression:undefined_to_none:{tree[0]}",
+                                f"compile_expression({src!r}) with the default undefined_to_none=True in the {ename} environment gives "
+                                f"{got2!r}; documented: {want2!r} (only an undefined result becomes None)",
+                                {"src": src, "tree": core.sx(tree), "env": ename, "data": {k2: repr(x) for k2, x in data.items()}})
             if got != want:
                 res.violate(f"C02:compile_expression:{ename}:{tree[0]}" if ename != "default" else f"C02:compile_expression:{tree[0]}",
                             f"compile_expression({src!r}) in the {ename} environment gives {got!r}; documented semantics give {want!r}",
